@@ -1,0 +1,36 @@
+//go:build verif
+
+package tor
+
+import "github.com/jech/storrent/webseed"
+
+// Accessors for the verification harness (/verif).  Compiled only with
+// the build tag "verif"; nothing here is used by storrent itself.
+
+// VerifInFlight returns the per-chunk in-flight counters.
+func (t *Torrent) VerifInFlight() []uint8 {
+	return t.inFlight
+}
+
+// VerifTrackers returns the URLs of the torrent's trackers, by tier.
+func (t *Torrent) VerifTrackers() [][]string {
+	as := make([][]string, len(t.trackers))
+	for i, v := range t.trackers {
+		as[i] = make([]string, len(v))
+		for j, w := range v {
+			as[i][j] = w.URL()
+		}
+	}
+	return as
+}
+
+// VerifWebseeds returns the URLs of the torrent's webseeds; getright[i]
+// is true for GetRight-style (url-list) webseeds.
+func (t *Torrent) VerifWebseeds() (urls []string, getright []bool) {
+	for _, ws := range t.webseeds {
+		_, gr := ws.(*webseed.GetRight)
+		urls = append(urls, ws.URL())
+		getright = append(getright, gr)
+	}
+	return urls, getright
+}
